@@ -8,5 +8,6 @@ CONSTANTS
   PHeights = {}
   PAns = {}
   PPub = {}
-INVARIANTS SweepMaxIsConfigured SweepBudgetIsInputs SweepDeadlineIsInputs ConformFF ConformCreate ConformTx ConformDone
+INVARIANTS SweepMaxIsConfigured SweepBudgetIsInputs SweepDeadlineIsInputs SweepExtraIsRequired ConformFF ConformCreate ConformTx ConformDone
+  NextEndIsCeilingOfBuiltTx NextStartCappedAtEnd
 CHECK_DEADLOCK TRUE
